@@ -89,6 +89,32 @@ def run_case(case):
     if q.shape == q_again.shape == q_other.shape and not (np.allclose(q, q_again, rtol=1e-12, atol=1e-300) and np.allclose(q, q_other, rtol=1e-12, atol=1e-300)):
         return result(VIOL, cls=[name], events=ev, key=_key(cfg, "repeated-call"), what="%s: quadrature weights change when requested again for the same space (max change %.3g / %.3g)"
                       % (name, float(np.abs(q - q_again).max()), float(np.abs(q - q_other).max())), witness=wit0)
+    # representations of the same request: an interpolator for COMPLEX data (every spelling of the type) must hand out the same (real)
+    # weights; and the same space built from integer-typed knots (integer break points) must have the same integrals and weights
+    if q.shape == (nb,):
+        spelling = (complex, np.complex128, np.dtype(complex), "complex128")[case["seed"] % 4]
+        qc = np.array(spl.SplineInterpolator1D(basis, dtype=spelling).get_quadrature_coefficients(), copy=True)
+        ev["complex_interpolator_weights"] = ev.get("complex_interpolator_weights", 0) + 1
+        tolc = 1e3 * rm.EPS * kappa * float(np.abs(q).max()) + 1e-300
+        if qc.shape != q.shape or not np.all(np.abs(qc - q) <= tolc):
+            return result(VIOL, cls=[name], events=ev, key=_key(cfg, "complex-interpolator-weights"),
+                          what="%s: the interpolator for complex data (dtype=%r) hands out other quadrature weights than the real one (max difference %.3g, tol %.3g)"
+                          % (name, spelling, float(np.abs(qc - q).max()) if qc.shape == q.shape else float("nan"), tolc), witness=wit0)
+        ib = np.concatenate(([0], np.cumsum(rs.randint(1, 4, size=len(breaks) - 1)))) if not (cfg.get("fast") or cfg.get("kind") == "uniform") else np.arange(len(breaks)) * 2
+        kf = spl.make_knots(ib.astype(float), p, bool(basis.periodic))
+        flag = bool(getattr(basis, "cubic_uniform", False)) or bool(cfg.get("uniform_flag"))
+        variants = {"float": kf, "int64": kf.astype(np.int64), "int32": kf.astype(np.int32), "list-of-int": [int(x) for x in kf]}
+        got = {}
+        for vn, kts in variants.items():
+            bv = spl.BSplines(kts, p, bool(basis.periodic), flag)
+            got[vn] = (np.array(bv.integrals, dtype=float, copy=True), np.array(spl.SplineInterpolator1D(bv).get_quadrature_coefficients(), dtype=float, copy=True))
+        ev["integer_knot_spaces"] = ev.get("integer_knot_spaces", 0) + 1
+        for vn in ("int64", "int32", "list-of-int"):
+            for what_, a_, b_ in (("basis integrals", got[vn][0], got["float"][0]), ("quadrature weights", got[vn][1], got["float"][1])):
+                if a_.shape != b_.shape or not np.allclose(a_, b_, rtol=1e-12, atol=1e-300):
+                    return result(VIOL, cls=[name], events=ev, key=_key(cfg, "integer-typed-knots"),
+                                  what="%s: %s of the space built from %s knots differ from those built from the same knots as floats (max difference %.3g)"
+                                  % (name, what_, vn, float(np.abs(a_ - b_).max()) if a_.shape == b_.shape else float("nan")), witness=dict(wit0, int_breaks=[int(x) for x in ib]))
     if q.shape != (nb,):
         return result(VIOL, cls=[name], events=ev, key=_key(cfg, "shape"), what="%s: %d quadrature weights for %d interpolation points" % (name, q.size, nb), witness=wit0)
     # stored basis integrals vs exact
